@@ -8,6 +8,8 @@ package main
 
 import (
 	"fmt"
+	"os"
+	"path/filepath"
 	"sync/atomic"
 
 	"github.com/aergoio/aergo-lib/db"
@@ -113,7 +115,9 @@ func testHardfork() *config.HardforkConfig {
 }
 
 func newNode() *node {
-	dir := fmt.Sprintf("c18-%d", atomic.AddInt64(&nodeSeq, 1))
+	// absolute and unique: the stores are in memory (verifdb) but chain.NewCore creates the
+	// directories, which must not land in the caller's working directory
+	dir := filepath.Join(os.TempDir(), fmt.Sprintf("verif-c18-%d-%d", os.Getpid(), atomic.AddInt64(&nodeSeq, 1)))
 	sc := config.NewServerContext("", "")
 	cfg := sc.GetDefaultConfig().(*config.Config)
 	cfg.DbType = "verifdb"
@@ -130,6 +134,7 @@ func newNode() *node {
 	cs := chain.NewChainService(cfg)
 	cs.SetChainConsensus(stubConsensus{cdb: cs.CDB()})
 	cs.VerifC18SkipMempool()
+	os.RemoveAll(dir) // every store is in memory; the directories are only created, never used
 	return &node{cs: cs, cfg: cfg, dir: dir}
 }
 
@@ -137,7 +142,8 @@ func (n *node) close() {
 	// not BeforeStop(): stopping the sign verifier while a refused block's tx
 	// verification is still in flight panics in its workers (send on closed channel)
 	n.cs.Close()
-	db.VerifDrop(n.dir)
+	db.VerifDrop(n.dir + string(filepath.Separator))
+	os.RemoveAll(n.dir)
 }
 
 func transferTx(nonce uint64, amount int64) *types.Tx {
